@@ -163,6 +163,13 @@ def gen_teams(rng, stratum, beta, n=None, maxsize=8):
             sz = rng.randint(2, min(4, max(2, maxsize)))
             sg = rng.sample([1.0, 2.0, 3.0, 4.0, 5.0, 6.0, 0.5, 2.5], sz)
             teams.append([(o + 3.0 * x, x) for x in sg])
+    elif stratum == "same-sigma":
+        # team-mates (hand-seeded players) who share one sigma exactly but differ in mu; and some who share a mu but differ in sigma
+        for _ in range(n):
+            sg = rng.choice([5.0, 25.0 / 3.0, rng.uniform(0.5, 9)]) * s
+            m0 = rng.gauss(25, 8) * s
+            sz = rng.randint(2, min(4, max(2, maxsize)))
+            teams.append([(rng.gauss(25, 8) * s, sg) if rng.random() < 0.75 else (m0, rng.uniform(0.5, 9) * s) for _ in range(sz)])
     elif stratum == "ragged-newcomers":
         # every player holds the same rating; the teams differ in size only
         v = rng.choice([(25.0 * s, 25.0 / 3.0 * s), (rng.gauss(25, 6) * s, rng.uniform(1, 9) * s)])
@@ -184,7 +191,7 @@ def gen_teams(rng, stratum, beta, n=None, maxsize=8):
 
 
 STRATA = ["typical", "typical", "wide", "corners", "mismatch", "identical", "equalsize", "floor", "lowedge", "lopsided", "bigsum", "newcomers", "integers",
-          "equal-ordinal", "ragged-newcomers", "inflated-twin"]
+          "equal-ordinal", "ragged-newcomers", "inflated-twin", "same-sigma"]
 
 
 def gen_config(rng, default_bias=0.4):
